@@ -644,6 +644,21 @@ def paren_ident_cases():
     return out
 
 
+def postfix_additive_cases():
+    """Postfix ++/-- directly in front of an additive operator of the *other* sign (maximal munch: `i++ - b` is (i++) - b),
+    prefix ++/-- behind a cast."""
+    i, b, a = (("atom", ("id", n)) for n in ("i", "b", "a"))
+    out = []
+    for po, bo in (("++", "-"), ("--", "+"), ("++", "+"), ("--", "-")):
+        out.append(("bin", bo, ("post", po, i), b))
+        out.append(("bin", bo, ("post", po, i), ("bin", "/", b, a)))
+        out.append(("bin", bo, ("post", po, i), ("un", "-", b)))
+    for pre in ("++", "--"):
+        out.append(("cast", "int", ("un", pre, a)))
+        out.append(("cast", "int32_t", ("un", pre, a)))
+    return out
+
+
 def stmt_hazard_cases():
     a, b, c, p_ = (("atom", ("id", n)) for n in ("a", "b", "c", "p"))
     R = ("atom", ("reg", "R", "s"))
